@@ -1,0 +1,21 @@
+//go:build verif
+
+// Contracts for the verification machinery in /verif (comment-only; compiled only with -tags verif).
+package beacon
+
+// Genesis export (C15): every exported registration is internally consistent - the counters that the import stores
+// verbatim are recomputed from the exported timestamp list (number in state, first id in state), the identity fields
+// and the last timestamp id are copied from the stored registration, and the limit is the stored limit.
+//@ func ExportGenesis(ctx, k) (gs)
+//@   props C15
+//@   pure
+//@   requires beaHighestSet(bea_store) ==> len(bea_store[kBHighest]) == 8
+//@   let recs := gs.RegisteredBeacons
+//@   ensures @counters_match_exported_records forall j int :: {recs[j]} 0 <= j && j < len(recs) ==> recs[j].Beacon.NumInState == len(recs[j].Timestamps) && recs[j].Beacon.FirstIdInState == (len(recs[j].Timestamps) > 0 ? recs[j].Timestamps[0].Id : 0)
+//@   ensures @limit_as_stored forall j int :: {recs[j]} 0 <= j && j < len(recs) && blimHas(bea_store, recs[j].Beacon.BeaconId) ==> recs[j].InStateLimit == blimGet(bea_store, recs[j].Beacon.BeaconId)
+//@   ensures @params beaParamsSet(bea_store) ==> gs.Params == beaParams(bea_store)
+//@   ensures @next_id beaHighestSet(bea_store) ==> beaHighestIs(bea_store, gs.StartingBeaconId)
+//@   loop 0: invariant 0 - 1 <= rangeindex && rangeindex < len(beacons) && len(records) == rangeindex + 1
+//@   loop 0: invariant forall j int :: {records[j]} 0 <= j && j < len(records) ==> records[j].Beacon.NumInState == len(records[j].Timestamps) && records[j].Beacon.FirstIdInState == (len(records[j].Timestamps) > 0 ? records[j].Timestamps[0].Id : 0)
+//@   loop 0: invariant forall j int :: {records[j]} 0 <= j && j < len(records) ==> records[j].Beacon.BeaconId == beacons[j].BeaconId && records[j].Beacon.Owner == beacons[j].Owner && records[j].Beacon.LastTimestampId == beacons[j].LastTimestampId && records[j].Beacon.Moniker == beacons[j].Moniker
+//@   loop 0: invariant forall j int :: {records[j]} 0 <= j && j < len(records) && blimHas(bea_store, records[j].Beacon.BeaconId) ==> records[j].InStateLimit == blimGet(bea_store, records[j].Beacon.BeaconId)
